@@ -2,7 +2,9 @@
 import vcheck
 PARTS = {'a': {'rank': 2, 'numeric': True}, 'b': {'rank': 1, 'numeric': True}, 'c': {'rank': 1, 'numeric': False}}
 
-def run_dims(chk, judge=None, replay=None):
+def run_dims(chk, judge=None, replay=None, c08=False):
+    """c08=True: every line is executed, but only calls the library REJECTS are judged (whatever the specification expected):
+    predicted rejections in full, unexpected ones by 'the state is what it was before the call'"""
     binary = vcheck.ensure_build('plain')
     if replay is not None:
         rp = vcheck.Replayer(binary, seed=chk.seed, opts=replay.get('_opts', PARTS['a']))
@@ -13,6 +15,8 @@ def run_dims(chk, judge=None, replay=None):
         return
     t = 't' if chk.thorough else 'q'
     for part, o in PARTS.items():
+        if c08:
+            o = dict(o, c08_only=True)
         rp = vcheck.Replayer(binary, seed=chk.seed, opts=o, chunk=200)
         run = vcheck.TlcRun('NixDims', 'MC_NixDims_%s_%s.cfg' % (part, t), workers=8, coverage=False)
         def src():
@@ -25,12 +29,14 @@ def run_dims(chk, judge=None, replay=None):
         if run.lines == 0:
             raise vcheck.MachineryError('no transition emitted by NixDims ' + part)
         chk.note_tlc(run)
+        if c08:      # an accepted call, or a call rejected without a trace where the specification expected success, is not C08's business
+            verdicts = [v for v in verdicts if v.get('c08') or recs.get(v.get('i'), {}).get('step', {}).get('res') == 'reject' or v.get('v') not in ('mismatch',)]
         chk.absorb(recs, verdicts, rp)
     chk.exhaustive = True
     # long random histories (beyond the BFS depth): descriptor lists appended / emptied / edited many times on the same array
     for part in ('a', 'b'):
-        o = PARTS[part]
+        o = dict(PARTS[part], c08_only=True) if c08 else PARTS[part]
         rp = vcheck.Replayer(binary, seed=chk.seed, opts=o, chunk=100)
-        vcheck.absorb_sim(chk, rp, 'NixDims', 'MC_NixDims_%s_sim.cfg' % part, 400 if chk.thorough else 40, 24, judge=judge, tag={'_opts': o})
+        vcheck.absorb_sim(chk, rp, 'NixDims', 'MC_NixDims_%s_sim.cfg' % part, 400 if chk.thorough else 40, 24, judge=(lambda r: r['step']['res'] == 'reject') if c08 else judge, tag={'_opts': o})
     chk.traces_validated = len(chk.distinct)
     chk.assumptions += ['descriptor scalars are abstract codes mapped to fixed concrete values (2 good + bad values per field)', 'trusted: TLC, harness/h_dims.cpp']
